@@ -70,7 +70,16 @@ Theorem C53_eviction_denials_justified : forall c, 0 <= c_period c -> forall ops
 Proof. exact run_lru_justified. Qed.
 Print Assumptions C53_eviction_denials_justified.
 
-(* Central theorem.  wf_C53 i: the input decodes, no reload changes period/stay/threshold (stable), and either the number of distinct keys does not exceed either
+(* Several rules per product (ModulePrison.processRules / prisonHandler): for all global and product rule lists (any
+   periods, thresholds, matching or not, actions CLOSE / FINISH / other) and all request histories, the model's
+   return codes and its AllChecked / AllPrison increments are exactly those obtained when every matching rule judges
+   every request it is reached by with its own reference automaton - a rule that admits a request never hides it from
+   the later rules; only a denying CLOSE/FINISH rule ends the processing. *)
+Theorem C53_multi_rules_reference : forall x, run_minp x = spec_minp x.
+Proof. exact multi_is_reference. Qed.
+Print Assumptions C53_multi_rules_reference.
+
+(* Central theorem.  wf_C53 i: the input is a decodable several-rules input, or it decodes as a single-rule history, no reload changes period/stay/threshold (stable), and either the number of distinct keys does not exceed either
    dictionary size (no eviction possible; prop_C53 = equality with the reference automaton), or period >= 0 and the
    request times are non-decreasing (eviction possible; prop_C53 = every denial is justified).  On every such input
    the executable property predicate the harness evaluates on the implementation holds of the model; there is no
